@@ -57,7 +57,7 @@ def truthspec(eng, st, q):
     return z3.And(z3.Not(z3.And(isnum, eq0)), z3.Not(empty))
 
 
-def build(reg, src):
+def build(reg, src, evaluator=True, verify_evaluator=True):
     reg.assumptions += [
         "Python callables given by users, the verb functions (monads/dyads/adverbs) and compiled expressions are assumed "
         "stack-preserving (they reach the context only through eval/call, whose contract is proved here, or through "
@@ -163,7 +163,7 @@ def build(reg, src):
            ensures=[guard_nm(getitem_post), lambda s, r: VBool(seq(s) == seq0(s)), contents_same],
            ensures_exc=[guard_nm(getitem_exc), contents_same])
 
-    RES = lambda k: z3.Function('p:in', Obj, Obj, Bool)(k, z3.Const('reserved_fn_symbols', Obj))
+    RES = lambda k: RES_IMPL[0](k)
 
     def setitem_post(s, r):
         """the name is (re)bound in the first scope that already holds it, else in the innermost scope; nothing else changes"""
@@ -224,7 +224,7 @@ def build(reg, src):
 
     # ---------------- evaluator: stack discipline (assume-guarantee over eval -> _eval_fn -> call -> eval)
     common = dict(setup=klong_setup, requires=[inv_k], modifies=eff_k, ensures=[pres_k], ensures_exc=[pres_k],
-                  idempotent_effects=True, returns='opaque')
+                  idempotent_effects=True, returns='opaque', verify=verify_evaluator)
     reg.fn(KI + 'call', ghost_at_call=log_call, **common)
     reg.fn(KI + '_eval_fn', loops={0: loop(invariant=[inv_k, pres_k], havoc=dict(q='opaque'))}, **common)
     reg.fn(KI + '_resolve_fn', **dict(common, returns=('opaque', 'opaque', 'opaque')))
@@ -252,7 +252,7 @@ def build(reg, src):
     def generic_case(eng, st):
         klong_setup(eng, st)
 
-    reg.fn(KI + 'eval', cases=[('any-node', generic_case), ('conditional', cond_case)],
+    reg.fn(KI + 'eval', cases=[('any-node', generic_case), ('conditional', cond_case)], verify=verify_evaluator,
            requires=[inv_k], modifies=eff_k, ensures=[pres_k, cond_post], ensures_exc=[pres_k], idempotent_effects=True, returns='opaque')
     reg.fn(KI + '__call__', **common)
     reg.fn(KI + 'exec', **common)
@@ -263,6 +263,9 @@ def build(reg, src):
            ensures=[lambda s, r: VBool(z3.And(seq(s) == seq0(s), mn(s) == mn0(s)))], ensures_exc=[lambda s, e: VBool(seq(s) == seq0(s)), contents_same])
 
     from replay import c03 as rp
+    if not verify_evaluator:
+        reg.replays.append((r'KlongContext\.(__getitem__|__setitem__|__delitem__)|set_context_var', rp.replay_scopes))
+        return
     reg.extra_checks.append(rp.check_merge_projections)
     reg.replays.append((r'KlongContext\.(__getitem__|__setitem__|__delitem__)|set_context_var', rp.replay_scopes))
     reg.replays.append((r'eval\[conditional\]', rp.replay_cond))
@@ -270,6 +273,7 @@ def build(reg, src):
 
 
 REGIONS = {}
+RES_IMPL = [lambda k: z3.Function('p:in', Obj, Obj, Bool)(k, z3.Const('reserved_fn_symbols', Obj))]
 
 
 def configure(eng):
